@@ -334,3 +334,194 @@ package client
 //@   requires cw != nil
 //@   modifies cw.dev
 //@   assert [C16] frame-delimited: len(w) >= 3 && w[0] == 0 && w[len(w)-1] == 0 at "cw.dev.Write(w)"
+
+// ---- rule.go (C13) ------------------------------------------------------------------------
+// The points the rule client writes are the calls of SendNodePoint on its connection: entry i of the
+// send log is (sentTo(nc, i), sentPt(nc, i)), sentN(nc) entries so far. SendNodePoint itself (encode and
+// publish/request on NATS) is trusted; an attempt is logged whether or not the bus reports an error.
+
+//@ model func sentN(nc *nats.Conn) int
+//@ model func sentTo(nc *nats.Conn, i int) string
+//@ model func sentPt(nc *nats.Conn, i int) data.Point
+//@ spec func logKept(nc *nats.Conn) bool = sentN(nc) >= old(sentN(nc)) && (forall i int :: i < old(sentN(nc)) ==> sentTo(nc, i) == old(sentTo(nc, i)) && sentPt(nc, i) == old(sentPt(nc, i)))
+
+//@ spec func sameButOrigin(a data.Point, b data.Point) bool = a.Type == b.Type && a.Key == b.Key && bits64(a.Value) == bits64(b.Value) && a.Text == b.Text && a.Time == b.Time && a.Tombstone == b.Tombstone && a.Data == b.Data
+
+//@ extern client.SendNodePoint(nc, nodeID, point, ack)
+//@   modifies state(nc)
+//@   ensures logKept(nc) && sentN(nc) == old(sentN(nc)) + 1 && sentTo(nc, old(sentN(nc))) == nodeID && sentPt(nc, old(sentN(nc))) == point
+
+//@ func (*RuleClient).sendPoint
+//@   props C13
+//@   local rc *client.RuleClient#1
+//@   local id string#1
+//@   local point data.Point#1
+//@   requires rc != nil
+//@   modifies state(rc.nc)
+//@   ensures [C13] one-write: logKept(rc.nc) && sentN(rc.nc) == old(sentN(rc.nc)) + 1 && sentTo(rc.nc, old(sentN(rc.nc))) == id
+//@   ensures [C13] origin-is-rule: id != rc.config.ID ==> sentPt(rc.nc, old(sentN(rc.nc))).Origin == rc.config.ID
+//@   ensures [C13] point-kept: sameButOrigin(sentPt(rc.nc, old(sentN(rc.nc))), point)
+//@   ensures [C13] id == rc.config.ID ==> sentPt(rc.nc, old(sentN(rc.nc))).Origin == point.Origin
+
+//@ spec func actKept(a Action, b Action) bool = a.ID == b.ID && a.Parent == b.Parent && a.Description == b.Description && a.Action == b.Action && a.NodeID == b.NodeID && a.PointType == b.PointType && a.ValueType == b.ValueType && bits64(a.Value) == bits64(b.Value) && a.ValueText == b.ValueText && a.PointChannel == b.PointChannel && a.PointDevice == b.PointDevice && a.PointFilePath == b.PointFilePath
+
+//@ func (*RuleClient).ruleInactiveActions
+//@   props C13
+//@   local rc *client.RuleClient#1
+//@   local actions []client.Action#1
+//@   local i int#1
+//@   requires rc != nil
+//@   modifies actions, state(rc.nc)
+//@   ensures [C13] marked-inactive: forall i int :: 0 <= i && i < len(actions) ==> !actions[i].Active && actKept(actions[i], old(actions[i])) && actions[i].Error == old(actions[i].Error)
+//@   ensures [C13] inactive-written: logKept(rc.nc) && sentN(rc.nc) == old(sentN(rc.nc)) + len(actions) && (forall i int :: 0 <= i && i < len(actions) ==> sentTo(rc.nc, old(sentN(rc.nc)) + i) == actions[i].ID && sentPt(rc.nc, old(sentN(rc.nc)) + i).Type == "active" && sentPt(rc.nc, old(sentN(rc.nc)) + i).Value == 0.0)
+//@   ensures [C13] res0 == nil
+//@   loop 1:
+//@     invariant -1 <= rangeindex && rangeindex < len(actions) || rangeindex == -1
+//@     invariant forall i int :: 0 <= i && i <= rangeindex ==> !actions[i].Active && actKept(actions[i], old(actions[i])) && actions[i].Error == old(actions[i].Error)
+//@     invariant forall i int :: rangeindex < i && i < len(actions) ==> actions[i] == old(actions[i])
+//@     invariant logKept(rc.nc) && sentN(rc.nc) == old(sentN(rc.nc)) + rangeindex + 1
+//@     invariant forall i int :: 0 <= i && i <= rangeindex ==> sentTo(rc.nc, old(sentN(rc.nc)) + i) == actions[i].ID && sentPt(rc.nc, old(sentN(rc.nc)) + i).Type == "active" && sentPt(rc.nc, old(sentN(rc.nc)) + i).Value == 0.0
+//@     modifies actions, state(rc.nc)
+//@     decreases len(actions) - rangeindex
+
+// Error bookkeeping writes error points to the rule's own node and changes nothing but rc.config.Error.
+//@ spec func errWrites(nc *nats.Conn, id string) bool = logKept(nc) && (forall i int :: old(sentN(nc)) <= i && i < sentN(nc) ==> sentPt(nc, i).Type == "error")
+//@ func (*RuleClient).processError
+//@   props C13
+//@   local rc *client.RuleClient#1
+//@   requires rc != nil
+//@   modifies &rc.config.Error, state(rc.nc)
+//@   ensures [C13] errWrites(rc.nc, rc.config.ID)
+//@   loop 1:
+//@     invariant -1 <= rangeindex && rangeindex < len(rc.config.Conditions) || rangeindex == -1
+//@     decreases len(rc.config.Conditions) - rangeindex
+//@   loop 2:
+//@     invariant -1 <= rangeindex && rangeindex < len(rc.config.Actions) || rangeindex == -1
+//@     decreases len(rc.config.Actions) - rangeindex
+//@   loop 3:
+//@     invariant -1 <= rangeindex && rangeindex < len(rc.config.ActionsInactive) || rangeindex == -1
+//@     decreases len(rc.config.ActionsInactive) - rangeindex
+
+//@ func newSchedule
+//@   props C13
+//@   local start string#1
+//@   local end string#2
+//@   local weekdays []time.Weekday#1
+//@   local dates []string#1
+//@   fresh res0
+//@   ensures [C13] res0 != nil && res0.startTime == start && res0.endTime == end && sameSlice(res0.weekdays, weekdays) && sameSlice(res0.dates, dates)
+
+//@ spec func condKept(a Condition, b Condition) bool = a.ID == b.ID && a.Parent == b.Parent && a.Description == b.Description && a.ConditionType == b.ConditionType && bits64(a.MinActive) == bits64(b.MinActive) && a.NodeID == b.NodeID && a.PointType == b.PointType && a.PointKey == b.PointKey && a.PointIndex == b.PointIndex && a.ValueType == b.ValueType && a.Operator == b.Operator && bits64(a.Value) == bits64(b.Value) && a.ValueText == b.ValueText && a.Start == b.Start && a.End == b.End && sameSlice(a.Weekdays, b.Weekdays) && sameSlice(a.Dates, b.Dates)
+
+// Point conditions. pvM(conds, j, nodeID, pts, k): point k of the batch matches the filters of condition j;
+// pvH(conds, j, pts, k): it satisfies the comparison of condition j.
+//@ spec func pvMatch(c Condition, nodeID string, p data.Point) bool = (c.NodeID == "" || c.NodeID == nodeID) && (c.PointKey == "" || c.PointKey == p.Key) && (c.PointType == "" || c.PointType == p.Type)
+//@ spec func numHolds(c Condition, p data.Point) bool = (c.Operator == ">" && p.Value > c.Value) || (c.Operator == "<" && p.Value < c.Value) || (c.Operator == "=" && p.Value == c.Value) || (c.Operator == "!=" && p.Value != c.Value)
+//@ spec func textHolds(c Condition, p data.Point) bool = (c.Operator == "=" && p.Text == c.ValueText) || (c.Operator == "!=" && p.Text != c.ValueText) || (c.Operator == "contains" && strContains(p.Text, c.ValueText))
+//@ spec func onOffHolds(c Condition, p data.Point) bool = (c.Value != 0.0) == (p.Value != 0.0)
+//@ spec func pvHolds(c Condition, p data.Point) bool = (c.ValueType == "number" && numHolds(c, p)) || (c.ValueType == "text" && textHolds(c, p)) || (c.ValueType == "onOff" && onOffHolds(c, p))
+//@ opaque func pvM(conds []Condition, j int, nodeID string, pts []data.Point, k int) bool reads conds, pts
+//@ opaque func pvH(conds []Condition, j int, pts []data.Point, k int) bool reads conds, pts
+//@ axiom pvM_def reads conds, pts: forall conds []Condition, j int, nodeID string, pts []data.Point, k int :: pvM(conds, j, nodeID, pts, k) == (conds[j].ConditionType == "pointValue" && pvMatch(conds[j], nodeID, pts[k]))
+//@ axiom pvH_def reads conds, pts: forall conds []Condition, j int, pts []data.Point, k int :: pvH(conds, j, pts, k) == pvHolds(conds[j], pts[k])
+
+// State of point condition j after the points [0, n) of the batch: decided by the latest matching point, unchanged if none matches.
+//@ spec func pvLatest(rc *RuleClient, j int, nodeID string, pts []data.Point, n int) bool = forall k int :: 0 <= k && k < n && old(pvM(rc.config.Conditions, j, nodeID, pts, k)) && (forall k2 int :: k < k2 && k2 < n ==> !old(pvM(rc.config.Conditions, j, nodeID, pts, k2))) ==> (rc.config.Conditions[j].Active <==> old(pvH(rc.config.Conditions, j, pts, k)))
+//@ spec func pvNone(rc *RuleClient, j int, nodeID string, pts []data.Point, n int) bool = old(rc.config.Conditions[j].ConditionType) == "pointValue" && (forall k int :: 0 <= k && k < n ==> !old(pvM(rc.config.Conditions, j, nodeID, pts, k))) ==> (rc.config.Conditions[j].Active <==> old(rc.config.Conditions[j].Active))
+//@ spec func condsKept(rc *RuleClient) bool = sameSlice(rc.config.Conditions, old(rc.config.Conditions)) && (forall j int :: 0 <= j && j < len(rc.config.Conditions) ==> condKept(rc.config.Conditions[j], old(rc.config.Conditions[j])))
+
+//@ spec func rcKept(rc *RuleClient) bool = rc.nc == old(rc.nc) && rc.config.ID == old(rc.config.ID) && sameSlice(rc.config.Actions, old(rc.config.Actions)) && sameSlice(rc.config.ActionsInactive, old(rc.config.ActionsInactive)) && rc.config.Description == old(rc.config.Description) && rc.config.Parent == old(rc.config.Parent) && rc.config.Active == old(rc.config.Active)
+//@ func (*RuleClient).ruleProcessPoints
+//@   props C13
+//@   local rc *client.RuleClient#1
+//@   local nodeID string#1
+//@   local points data.Points#1
+//@   local p data.Point#1
+//@   local i int#1
+//@   local c client.Condition#1
+//@   local active bool#1
+//@   local weekdays []time.Weekday#1
+//@   local allActive bool#6
+//@   requires rc != nil
+//@   modifies rc, rc.config.Conditions, state(rc.nc)
+//@   cut [C13] shape: 0 <= rangeindex1 && rangeindex1 < len(points) && p == points[rangeindex1] && i == rangeindex2 && 0 <= i && i < len(rc.config.Conditions) && condsKept(rc) && logKept(rc.nc) && rcKept(rc) && condKept(c, rc.config.Conditions[i]) && c.Active == rc.config.Conditions[i].Active at "active != c.Active"
+//@   cut [C13] done: forall j int :: 0 <= j && j < i ==> pvLatest(rc, j, nodeID, points, rangeindex1+1) && pvNone(rc, j, nodeID, points, rangeindex1+1) at "active != c.Active"
+//@   cut [C13] todo: forall j int :: i <= j && j < len(rc.config.Conditions) ==> pvLatest(rc, j, nodeID, points, rangeindex1) && pvNone(rc, j, nodeID, points, rangeindex1) at "active != c.Active"
+//@   cut [C13] evaluated: c.ConditionType == "pointValue" ==> old(pvM(rc.config.Conditions, i, nodeID, points, rangeindex1)) && (active <==> old(pvH(rc.config.Conditions, i, points, rangeindex1))) at "active != c.Active"
+//@   ensures [C13] res2 == nil
+//@   ensures [C13] rule-active: res0 <==> (forall j int :: 0 <= j && j < len(rc.config.Conditions) ==> rc.config.Conditions[j].Active)
+//@   ensures [C13] rule-state: rc.config.Active == res0 && (res1 <==> res0 != old(rc.config.Active))
+//@   ensures [C13] rule-written: logKept(rc.nc) && (res1 ==> sentTo(rc.nc, sentN(rc.nc)-1) == rc.config.ID && sentPt(rc.nc, sentN(rc.nc)-1).Type == "active" && sentPt(rc.nc, sentN(rc.nc)-1).Value == ite(res0, 1.0, 0.0))
+//@   ensures [C13] config-kept: rc.nc == old(rc.nc) && rc.config.ID == old(rc.config.ID) && sameSlice(rc.config.Actions, old(rc.config.Actions)) && sameSlice(rc.config.ActionsInactive, old(rc.config.ActionsInactive)) && rc.config.Description == old(rc.config.Description) && rc.config.Parent == old(rc.config.Parent)
+//@   ensures [C13] point-conditions: condsKept(rc) && (forall j int :: 0 <= j && j < len(rc.config.Conditions) ==> pvLatest(rc, j, nodeID, points, len(points)) && pvNone(rc, j, nodeID, points, len(points)))
+//@   loop 1:
+//@     invariant -1 <= rangeindex && rangeindex < len(points) || rangeindex == -1
+//@     invariant condsKept(rc) && logKept(rc.nc) && rcKept(rc)
+//@     invariant forall j int :: 0 <= j && j < len(rc.config.Conditions) ==> pvLatest(rc, j, nodeID, points, rangeindex+1) && pvNone(rc, j, nodeID, points, rangeindex+1)
+//@     modifies rc, rc.config.Conditions, state(rc.nc)
+//@     decreases len(points) - rangeindex
+//@   loop 2:
+//@     invariant -1 <= rangeindex && rangeindex < len(rc.config.Conditions) || rangeindex == -1
+//@     invariant 0 <= rangeindex1 && rangeindex1 < len(points) && condsKept(rc) && logKept(rc.nc) && rcKept(rc)
+//@     invariant forall j int :: 0 <= j && j <= rangeindex ==> pvLatest(rc, j, nodeID, points, rangeindex1+1) && pvNone(rc, j, nodeID, points, rangeindex1+1)
+//@     invariant forall j int :: rangeindex < j && j < len(rc.config.Conditions) ==> pvLatest(rc, j, nodeID, points, rangeindex1) && pvNone(rc, j, nodeID, points, rangeindex1)
+//@     modifies rc, rc.config.Conditions, state(rc.nc)
+//@     decreases len(rc.config.Conditions) - rangeindex
+//@   loop 3:
+//@     invariant -1 <= rangeindex && rangeindex < len(c.Weekdays) || rangeindex == -1
+//@     invariant isfresh(weekdays) && (refOf(weekdays) == refOf(preloop(weekdays)) || sinceLoop(weekdays))
+//@     modifies weekdays
+//@     decreases len(c.Weekdays) - rangeindex
+//@   loop 4:
+//@     invariant -1 <= rangeindex && rangeindex < len(rc.config.Conditions) || rangeindex == -1
+//@     invariant allActive && (forall j int :: 0 <= j && j <= rangeindex ==> rc.config.Conditions[j].Active)
+//@     decreases len(rc.config.Conditions) - rangeindex
+
+// Trusted: lookups and the notification path of ruleRunActions do not write points (they are not part of the send log).
+//@ extern client.GetNodes(nc, parent, id, typ, includeDel)
+//@   fresh res0
+//@ extern data.(NodeEdge).Desc(n)
+//@ extern data.(*Notification).ToPb(n)
+//@   fresh res0
+
+//@ spec func isSetValue(a Action) bool = a.Action == "setValue" && a.NodeID != "" && a.PointType != ""
+//@ spec func logIdx(m int) bool
+//@ axiom logIdx_true: forall m int :: logIdx(m)
+//@ spec func setWritten(nc *nats.Conn, lo int, hi int, a Action, ruleID string) bool = exists m int :: logIdx(m) && lo <= m && m < hi && sentTo(nc, m) == a.NodeID && sentPt(nc, m).Type == a.PointType && bits64(sentPt(nc, m).Value) == bits64(a.Value) && sentPt(nc, m).Text == a.ValueText && (a.NodeID != ruleID ==> sentPt(nc, m).Origin == ruleID)
+
+//@ func (*RuleClient).ruleRunActions
+//@   props C13
+//@   local rc *client.RuleClient#1
+//@   local actions []client.Action#1
+//@   local i int#1
+//@   requires rc != nil
+//@   modifies actions, &rc.config.Error, state(rc.nc)
+//@   ensures [C13] error-only-from-notify: res0 != nil ==> (exists i int :: 0 <= i && i < len(actions) && old(actions[i].Action) == "notify")
+//@   ensures [C13] actions-kept: forall i int :: 0 <= i && i < len(actions) ==> actKept(actions[i], old(actions[i]))
+//@   ensures [C13] log-kept: logKept(rc.nc)
+//@   ensures [C13] set-value-written: res0 == nil ==> (forall i int :: 0 <= i && i < len(actions) && isSetValue(old(actions[i])) ==> setWritten(rc.nc, old(sentN(rc.nc)), sentN(rc.nc), old(actions[i]), rc.config.ID))
+//@   loop 1:
+//@     invariant -1 <= rangeindex && rangeindex < len(actions) || rangeindex == -1
+//@     invariant logKept(rc.nc)
+//@     invariant forall i int :: 0 <= i && i < len(actions) ==> actKept(actions[i], old(actions[i]))
+//@     invariant forall i int :: 0 <= i && i <= rangeindex && isSetValue(old(actions[i])) ==> setWritten(rc.nc, old(sentN(rc.nc)), sentN(rc.nc), old(actions[i]), rc.config.ID)
+//@     modifies actions, &rc.config.Error, state(rc.nc)
+//@     decreases len(actions) - rangeindex
+
+// The run closure of (*RuleClient).Run: evaluate the batch (or, without points, a schedule trigger at the current
+// time); on a change of the rule's state (always, for the trigger) run the list that corresponds to the new state
+// and mark the other list inactive.
+//@ spec func noNotify(as []Action) bool = forall i int :: 0 <= i && i < len(as) ==> as[i].Action != "notify"
+//@ spec func allSetWritten(rc *RuleClient, as []Action) bool = forall i int :: 0 <= i && i < len(as) && isSetValue(old(as[i])) ==> setWritten(rc.nc, old(sentN(rc.nc)), sentN(rc.nc), old(as[i]), rc.config.ID)
+//@ spec func allInactive(as []Action) bool = forall i int :: 0 <= i && i < len(as) ==> !as[i].Active
+//@ spec func listKept(as []Action) bool = forall i int :: 0 <= i && i < len(as) ==> as[i] == old(as[i])
+//@ func (*RuleClient).Run$2
+//@   props C13
+//@   local pts data.Points#1
+//@   requires rc != nil && (refOf(rc.config.Actions) != refOf(rc.config.ActionsInactive) || len(rc.config.Actions) == 0 || len(rc.config.ActionsInactive) == 0)
+//@   modifies rc, rc.config.Conditions, rc.config.Actions, rc.config.ActionsInactive, state(rc.nc)
+//@   ensures [C13] lists-kept: sameSlice(rc.config.Actions, old(rc.config.Actions)) && sameSlice(rc.config.ActionsInactive, old(rc.config.ActionsInactive)) && rc.config.ID == old(rc.config.ID)
+//@   ensures [C13] log-kept: logKept(rc.nc)
+//@   ensures [C13] unchanged-runs-nothing: len(pts) > 0 && rc.config.Active == old(rc.config.Active) ==> listKept(rc.config.Actions) && listKept(rc.config.ActionsInactive)
+//@   ensures [C13] active-runs-actions: (len(pts) <= 0 || rc.config.Active != old(rc.config.Active)) && rc.config.Active && old(noNotify(rc.config.Actions)) ==> allSetWritten(rc, rc.config.Actions) && allInactive(rc.config.ActionsInactive)
+//@   ensures [C13] inactive-runs-inactive-actions: (len(pts) <= 0 || rc.config.Active != old(rc.config.Active)) && !rc.config.Active && old(noNotify(rc.config.ActionsInactive)) ==> allSetWritten(rc, rc.config.ActionsInactive) && allInactive(rc.config.Actions)
